@@ -459,8 +459,16 @@ def an_summary(model, a, p):
 def an_sample(model, a, p):
     from cobra.sampling import sample
 
-    df = sample(model, a.get("n", 4), method=a.get("method", "optgp"), thinning=a.get("thinning", 2), processes=p,
-                seed=a.get("seed", 42))
+    if a.get("again") and a.get("method", "optgp") == "optgp":
+        # one sampler object asked twice: it carries its centre and sample count from the first batch into the second
+        import pandas as pd
+        from cobra.sampling import OptGPSampler
+
+        s = OptGPSampler(model, processes=p, thinning=a.get("thinning", 2), seed=a.get("seed", 42))
+        df = pd.concat([s.sample(a.get("n", 4)), s.sample(a["again"])], ignore_index=True)
+    else:
+        df = sample(model, a.get("n", 4), method=a.get("method", "optgp"), thinning=a.get("thinning", 2), processes=p,
+                    seed=a.get("seed", 42))
     return {"unique": {"shape": list(df.shape), "columns": [str(c) for c in df.columns],
                        "values": [[_nan(x) for x in row] for row in df.values.tolist()]}}
 
@@ -1159,6 +1167,8 @@ def _gen_call(rng, W, prop):
     elif kind == "sample":
         a.update(n=rng.choice([2, 4, 5]), method=rng.choice(["optgp", "achr"]) if prop == "C13" else "optgp",
                  thinning=rng.choice([1, 2, 3]), seed=rng.randint(1, 10 ** 6))
+        if rng.random() < 0.4:
+            a["again"] = rng.choice([1, 3, 4])
     return kind, a
 
 
